@@ -30,6 +30,7 @@ type mutant struct {
 func main() {
 	repo := flag.String("repo", "/repo", "module root")
 	out := flag.String("out", "/tmp/mut", "output directory")
+	set := flag.String("set", "classic", "operator set: classic | extended")
 	flag.Parse()
 	var files []string
 	filepath.WalkDir(*repo, func(p string, d os.DirEntry, err error) error {
@@ -106,6 +107,75 @@ func main() {
 			}
 			text := func(n ast.Node) string {
 				return string(src[fset.Position(n.Pos()).Offset:fset.Position(n.End()).Offset])
+			}
+			if *set == "extended" {
+				ast.Inspect(fd.Body, func(n ast.Node) bool {
+					switch x := n.(type) {
+					case *ast.BinaryExpr:
+						if x.Op == token.LAND || x.Op == token.LOR {
+							emit(x.Pos(), x.End(), text(x.X), "drop-operand", fname)
+							emit(x.Pos(), x.End(), text(x.Y), "drop-operand", fname)
+						}
+					case *ast.SliceExpr:
+						if x.Low != nil {
+							emit(x.Low.Pos(), x.Low.End(), "("+text(x.Low)+")+1", "slice-bound", fname)
+						} else {
+							emit(x.Lbrack+1, x.Lbrack+1, "1", "slice-bound", fname)
+						}
+						if x.High != nil {
+							emit(x.High.Pos(), x.High.End(), "("+text(x.High)+")-1", "slice-bound", fname)
+							emit(x.High.Pos(), x.High.End(), "("+text(x.High)+")+1", "slice-bound", fname)
+						}
+					case *ast.IndexExpr:
+						if _, isLit := x.Index.(*ast.BasicLit); !isLit {
+							if id, ok := x.Index.(*ast.Ident); !ok || (id.Name != "T" && id.Name != "K" && id.Name != "V" && id.Name != "string" && id.Name != "int" && id.Name != "any") {
+								emit(x.Index.Pos(), x.Index.End(), "("+text(x.Index)+")+1", "index", fname)
+								emit(x.Index.Pos(), x.Index.End(), "("+text(x.Index)+")-1", "index", fname)
+							}
+						}
+					case *ast.CallExpr:
+						if id, ok := x.Fun.(*ast.Ident); ok && id.Name == "len" && len(x.Args) == 1 {
+							emit(x.Pos(), x.End(), "("+text(x)+"-1)", "len", fname)
+							emit(x.Pos(), x.End(), "("+text(x)+"+1)", "len", fname)
+						}
+						if len(x.Args) >= 2 {
+							for i := 0; i+1 < len(x.Args); i++ {
+								a, b := x.Args[i], x.Args[i+1]
+								if text(a) != text(b) {
+									emit(a.Pos(), b.End(), text(b)+", "+text(a), "swap-args", fname)
+								}
+							}
+						}
+					case *ast.IfStmt:
+						// drop the whole statement, or its else branch
+						emit(x.Pos(), x.End(), "", "remove-if", fname)
+						if x.Else != nil {
+							emit(x.Body.End(), x.Else.End(), "", "remove-else", fname)
+						}
+					case *ast.ReturnStmt:
+						for _, r := range x.Results {
+							if id, ok := r.(*ast.Ident); ok && id.Name == "nil" {
+								continue
+							}
+							if _, ok := r.(*ast.BasicLit); ok {
+								continue
+							}
+						}
+					case *ast.RangeStmt:
+						// visit one element less
+						emit(x.X.Pos(), x.X.End(), "("+text(x.X)+")[1:]", "range-skip-first", fname)
+					case *ast.AssignStmt:
+						// the two sides of a parallel assignment, or op-assign direction
+						switch x.Tok {
+						case token.ADD_ASSIGN:
+							emit(x.TokPos, x.TokPos+2, "-=", "op-assign", fname)
+						case token.SUB_ASSIGN:
+							emit(x.TokPos, x.TokPos+2, "+=", "op-assign", fname)
+						}
+					}
+					return true
+				})
+				continue
 			}
 			ast.Inspect(fd.Body, func(n ast.Node) bool {
 				switch x := n.(type) {
